@@ -85,7 +85,7 @@ def gen_cfg(rng, t, root):
     if rng.random() < 0.5:
         ex = []
         for _ in range(rng.choice([1, 1, 2])):
-            k = rng.choice(["dir", "file", "glob", "**f", "missing"])
+            k = rng.choice(["dir", "file", "glob", "**f", "missing", "glob/"])
             if k == "dir" and dirs:
                 ex.append(rng.choice(dirs))
             elif k == "file" and files:
@@ -96,6 +96,9 @@ def gen_cfg(rng, t, root):
                 ex.append(rng.choice(["**/a*", "**/skip", "**/*.F90"]))
             elif k == "missing":
                 ex.append("nothere")
+            elif k == "glob/":
+                # with a trailing separator: directories only, files of the same spelling stay
+                ex.append(rng.choice(["s*/", "*/", "a*/", "**/a*/", "*/s*/", "*.f90/"] + ([rng.choice(files).replace("[", "[[]")[:3] + "*/"] if files else [])))
         if ex:
             cfg["excl_paths"] = ex
     if rng.random() < 0.35:
@@ -146,6 +149,10 @@ def oracle_glob(t, pattern, root):
         if rel == ".":
             return [""]
         pattern = rel
+    dirs_only = pattern.endswith("/") and pattern.strip("/") != ""
+    if dirs_only:
+        # a trailing separator: the pattern matches directories only
+        return [p for p in oracle_glob(t, pattern.rstrip("/"), root) if p == "" or dict(t).get(p) == "D"]
     segs = pattern.split("/")
     entries = dict(t)
     entries[""] = "D"
@@ -317,11 +324,12 @@ def run_cases(ctx, cases, label):
 def fixed_cases():
     t = {"a.f90": "F", "b.txt": "F", "sub": "D", "sub/x.F": "F", "sub/y.f90.bak": "F", "empty": "D", "sub/deep": "D", "sub/deep/z.for": "F",
          "skip": "D", "skip/s.f90": "F", "c.inc": "F", "t_tmp.f90": "F", "d.INC": "F", "sub/e.Inc": "F", "up": "D", "up/only.INC": "F",
-         "sub/.gen": "D", "sub/.gen/g.f90": "F", "skip/.cache": "D", "skip/.cache/h.f90": "F"}
+         "sub/.gen": "D", "sub/.gen/g.f90": "F", "skip/.cache": "D", "skip/.cache/h.f90": "F", "s_tool.f90": "F", "sub/x_more.f90": "F"}
     cfgs = [{}, {"source_dirs": ["sub"]}, {"source_dirs": ["sub/**"]}, {"source_dirs": ["**"]}, {"excl_paths": ["skip"]},
             {"excl_paths": ["sub"]}, {"incl_suffixes": [".inc"]}, {"excl_suffixes": ["_tmp.f90"]}, {"source_dirs": ["<ROOT>"]},
             {"source_dirs": ["sub", "nope"], "excl_paths": ["sub/x.F"]}, {"excl_paths": ["**/*.f90"]},
-            {"source_dirs": ["sub/*"]}, {"source_dirs": ["*/*"]}, {"excl_paths": ["skip/**"]}, {"excl_paths": ["*/.*"]}]
+            {"source_dirs": ["sub/*"]}, {"source_dirs": ["*/*"]}, {"excl_paths": ["skip/**"]}, {"excl_paths": ["*/.*"]},
+            {"excl_paths": ["s*/"]}, {"excl_paths": ["sub/x*/", "*/"]}]
     return [(t, c) for c in cfgs]
 
 
